@@ -14,7 +14,7 @@ ID = "C18"
 MODEL_OP = "seq_crop (_get_sequence_crop_item)"
 RULE = ("sequences of 1-4 cubes of 1-3 dims (lengths 5-8) whose WCS (probe separable / coupled, FITS separable / celestial / "
         "rotated, gWCS) are identical or shifted by whole pixels relative to one another, optionally with Quantity / Time "
-        "extra coords; 1-4 points given as pixel positions of the first cube (None per independent group, boxes one element "
+        "extra coords (tables shifted by whole pixels between cubes when cropping by extra_coords / combined_wcs), one WCS object shared by all cubes or one each; 1-4 points given as pixel positions of the first cube (None per independent group, boxes one element "
         "wide included); both forms; wcses in {None, 'wcs', 'combined_wcs', 'extra_coords', explicit list}. "
         "Non-trivial = at least one supplied coordinate; distinct = whole case")
 TRUSTED = ["each cube's own box is computed from the generating pixel positions and the known shift, never through the inverse transform",
@@ -37,48 +37,66 @@ def generate(rng, tier):
         fam = rng.choice(FAMILIES)
         which = rng.choice(["wcs", "wcs", "default", "list", "extra_coords", "combined_wcs"])
         ncubes = rng.choice([1, 2, 3, 4])
+        form = rng.choice(["values", "objects"])
+        ec_shift = which == "extra_coords" or (which == "combined_wcs" and fam != "gwcs")
         ecs = []
         if which in ("extra_coords", "combined_wcs") or rng.random() < 0.2:
             for _ in range(rng.choice([1, 1, 2])):
-                ecs.append({"kind": rng.choice(["quantity", "time"]), "axes": [rng.randrange(nd)]})
+                # a Time table's world *values* are seconds since its own first entry, so one value names different
+                # instants in differently shifted cubes: shifted Time tables are cropped by objects only
+                kinds = ["quantity"] if ec_shift and form == "values" else ["quantity", "time"]
+                ecs.append({"kind": rng.choice(kinds), "axes": [rng.randrange(nd)]})
         can_shift = fam != "gwcs" and which in ("wcs", "default", "list")
         # whole-pixel and sub-pixel shifts (0.15 / 0.3 / 0.45 never put an eighth-pixel position on a pixel edge):
         # with sub-pixel shifts the cubes' own boxes differ in extent, not only in position
         shifts = [[0] * nd] + [[rng.choice([-1, 0, 0, 1, 0.3, -0.3, 0.15, 0.45, -0.45]) if can_shift else 0 for _ in range(nd)]
                                 for _ in range(ncubes - 1)]
+        if ec_shift:
+            # whole-pixel shifts of the extra-coordinate tables (and, for the combined wcs, of the primary WCS with them)
+            shifts = [[0] * nd] + [[rng.choice([-1, 0, 1]) for _ in range(nd)] for _ in range(ncubes - 1)]
+        # one WCS object held by every cube (only where the primary WCS is not shifted)
+        share = rng.random() < 0.4 and (which == "extra_coords" or not any(any(s) for s in shifts))
         pts = []
         for _ in range(rng.choice([1, 2, 2, 3, 4])):
-            pix = [rng.randint(1, s - 2) + rng.choice([0, 0.25, -0.25, 0.375, -0.375]) for s in shape]
+            # a table gives no value beyond its first / last entry: shifted tables need one more pixel of margin
+            pix = [(rng.randint(2, s - 3) if ec_shift else rng.randint(1, s - 2)) + rng.choice([0, 0.25, -0.25, 0.375, -0.375]) for s in shape]
             if rng.random() < 0.3 and pts:
                 pix = [pts[0]["pix"][a] if rng.random() < 0.7 else x for a, x in enumerate(pix)]   # one-element-wide boxes
             pts.append({"pix": pix, "none_bits": rng.choice([0, 0, 0, 1, 2, 3])})
         yield {"shape": shape, "fam": fam, "wseed": rng.randrange(10**6), "ecs": ecs, "which": which, "shifts": shifts,
-               "points": pts, "form": rng.choice(["values", "objects"])}
+               "points": pts, "form": form, "share_wcs": share}
 
 
 def build(case):
     from ndcube import NDCubeSequence
     cubes = []
     nd = len(case["shape"])
+    shift_primary = case["which"] != "extra_coords"
+    shift_ecs = case["which"] in ("extra_coords", "combined_wcs")
+    shared = None
     for k, sh in enumerate(case["shifts"]):
-        cube = E.build_cube(case["shape"], case["fam"], case["wseed"], case["ecs"])
-        cube = type(cube)(C.payload(tuple(case["shape"]), k), wcs=cube.wcs, meta={"cube": k})
+        cube = E.build_cube(case["shape"], case["fam"], case["wseed"], [])
+        if case.get("share_wcs"):
+            shared = shared if shared is not None else cube.wcs
+            cube = type(cube)(C.payload(tuple(case["shape"]), k), wcs=shared, meta={"cube": k})
+        else:
+            cube = type(cube)(C.payload(tuple(case["shape"]), k), wcs=cube.wcs, meta={"cube": k})
         ll = W.low_level(cube.wcs)
         spix = np.array(sh[::-1], dtype=float)            # pixel order
-        if any(sh):
+        if any(sh) and shift_primary and not case.get("share_wcs"):
             if isinstance(ll, W.ProbeWCS):
                 ll.b = ll.b - ll.A @ spix                    # world(p) of cube k = world0(p - s)
             else:
                 ll.wcs.crpix = ll.wcs.crpix + spix
                 ll.wcs.set()
-        E.add_ecs(cube, case["ecs"], list(case["shape"]))
+        E.add_ecs(cube, case["ecs"], list(case["shape"]), ishift=[int(x) for x in sh] if shift_ecs else None)
         cubes.append(cube)
     return NDCubeSequence(cubes), cubes
 
 
 def run(case):
     tags = [f"ndim={len(case['shape'])}", f"fam={case['fam']}", f"which={case['which']}", f"ncubes={len(case['shifts'])}",
-            f"form={case['form']}", "shifted" if any(any(s) for s in case["shifts"]) else "aligned"] + (["sub-pixel-shift"] if any(x != int(x) for s in case["shifts"] for x in s) else [])
+            f"form={case['form']}", "shared-wcs-object" if case.get("share_wcs") else "own-wcs-objects", "shifted" if any(any(s) for s in case["shifts"]) else "aligned"] + (["sub-pixel-shift"] if any(x != int(x) for s in case["shifts"] for x in s) else [])
     res = {"tags": tags, "oracle": None, "impl": {"err": None}, "model_req": None}
     fails = []
     seq, cubes = build(case)
